@@ -140,6 +140,13 @@ class ShapeOf(object):
         self.v = v
 
 
+class ShapeTail(object):
+    """x.shape[k:] for a constant k > 0, not yet unpacked: the number of extents is not known until it is"""
+    def __init__(self, v, skip):
+        self.v = v
+        self.skip = skip
+
+
 class BoundMethod(object):
     def __init__(self, recv, name):
         self.recv = recv
@@ -572,6 +579,22 @@ class Interp(object):
             node = ast.If(test=st.value.test, body=[a], orelse=[b])
             ast.copy_location(node, st)
             return self.st_If(node, s, ctx)
+        # the same for a conditional expression nested inside the value (`x = z / ((1 + m) if m == 1 else (1 - m))`): the
+        # statement is executed once per alternative, under the decision, exactly as the if-statement form would be
+        if isinstance(st, (ast.Assign, ast.AugAssign, ast.AnnAssign, ast.Return)) and getattr(st, "value", None) is not None \
+                and not isinstance(st.value, ast.IfExp):
+            inner = _first_nested_ifexp(st.value)
+            if inner is not None and self.truth(inner.test, s.env, ctx) is None:
+                import copy as _copy
+
+                def with_(repl):
+                    c = _copy.copy(st)
+                    c.value = _replace_node(st.value, inner, repl)
+                    return c
+                node = ast.If(test=inner.test, body=[with_(inner.body)], orelse=[with_(inner.orelse)])
+                ast.copy_location(node, st)
+                ast.fix_missing_locations(node)
+                return self.st_If(node, s, ctx)
         m = getattr(self, "st_" + type(st).__name__, None)
         if m is None:
             self.notes.append("%s: statement %s skipped" % (ctx.finfo.fq, type(st).__name__))
@@ -824,8 +847,14 @@ class Interp(object):
         if isinstance(v, ShapeOf):
             # unpacking fixes the rank: name the extents by their negative index
             return [self.shape_elem(v.v, i - n, n) for i in range(n)]
+        if isinstance(v, ShapeTail):
+            # a, b = x.shape[k:] fixes the rank at k + 2: the extents are the trailing ones
+            return [self.shape_elem(v.v, i - n, n + v.skip) for i in range(n)]
         if isinstance(v, Rat):
             d = v.single_atom()
+            if isinstance(d, Fn) and d.name == "array" and len(d.args) == 1 and isinstance(d.args[0], tuple) and len(d.args[0]) == n and \
+                    all(isinstance(q, Rat) for q in d.args[0]):
+                return list(d.args[0])          # a stack written out item by item
             if isinstance(d, Fn) and d.name == "draw" and isinstance(d.args[4], tuple) and len(d.args[4]) >= 2 and \
                     isinstance(d.args[4][0], Rat) and pyconst(d.args[4][0]) == n and isinstance(d.args[0], Rat) and \
                     self.draw_counts.get(d.args[0].key()) == d.args[5]:
@@ -872,6 +901,18 @@ class Interp(object):
                 ast.copy_location(n_, st)
             ast.fix_missing_locations(outer)
             return self.st_If(outer, s, ctx)
+        if isinstance(st.test, ast.Compare) and len(st.test.ops) == 1 and isinstance(st.test.ops[0], (ast.In, ast.NotIn)) and \
+                isinstance(st.test.comparators[0], (ast.Tuple, ast.List, ast.Set)) and 2 <= len(st.test.comparators[0].elts) <= 4 and \
+                all(isinstance(e_, ast.Constant) and isinstance(e_.value, (int, str)) for e_ in st.test.comparators[0].elts) and \
+                not (forced and norm_text(st.test) in forced):
+            # `x in (a, b)` over literal constants is `x == a or x == b`: one atomic decision per alternative
+            alts = ast.BoolOp(op=ast.Or(), values=[ast.Compare(left=st.test.left, ops=[ast.Eq()], comparators=[e_])
+                                                   for e_ in st.test.comparators[0].elts])
+            pos = isinstance(st.test.ops[0], ast.In)
+            node = ast.If(test=alts, body=st.body if pos else (st.orelse or [ast.Pass()]), orelse=st.orelse if pos else st.body)
+            ast.copy_location(node, st)
+            ast.fix_missing_locations(node)
+            return self.st_If(node, s, ctx)
         txt = norm_text(st.test)
         tv = self.ev(st.test, s.env, ctx)
         k = vkey(tv) if isinstance(tv, Rat) and not has_unknown(tv) else None
@@ -900,6 +941,8 @@ class Interp(object):
             if len(h.body) == 1 and isinstance(h.body[0], ast.Raise):
                 continue
             hs = pre.fork("except %s" % (norm_text(h.type) if h.type is not None else ""))
+            # the decision `the guarded block raised` is part of the path: a caller that inlines this function sees it too
+            hs.cond_nf = hs.cond_nf + ((Rat.atom(Fn("raised", (norm_text(h.type) if h.type is not None else "", st.lineno))), True),)
             if h.name:
                 hs.env[h.name] = unk("exc")
             out.extend(self.exec_block(h.body, [hs], ctx))
@@ -1116,6 +1159,15 @@ class Interp(object):
         if not hasattr(ctx, "loop_stack"):
             ctx.loop_stack = []
         over_ = _range_of_listcomp(it, tag)
+        idx_name = "%s#" % tag
+        if over_ is None and isinstance(it, tuple) and len(it) == 2 and it[0] == "zip" and isinstance(it[1], tuple) and it[1]:
+            # zip of sequences that all have the same statically known, constant number of items n: the loop is
+            # `for k in range(n)` reading item k of each
+            ns_ = [leading_length(x) if isinstance(x, Rat) else None for x in it[1]]
+            if all(n_ is not None for n_ in ns_) and len(set(ns_)) == 1:
+                k_ = Rat.sym(tag, ("int", "loopvar"))
+                over_ = (RangeVal(Rat.const(0), Rat.const(ns_[0]), Rat.const(1)), tuple(self.elem(x, k_) for x in it[1]))
+                idx_name = tag
         if over_ is not None:
             it = over_[0]
         ctx.loop_stack.append((tag, _itkey(it), st))
@@ -1137,7 +1189,7 @@ class Interp(object):
             rk_ = body_state.env.get("__ranks__", {}).get(bn_)
             if rk_ is not None and rk_ >= 2 and bn_ in body_state.env.get("__arrays__", ()):
                 iname = "__idx@%s" % tag
-                body_state.env[iname] = Rat.sym("%s#" % tag, ("int", "loopvar"))
+                body_state.env[iname] = Rat.sym(idx_name, ("int", "loopvar"))
                 vw_ = dict(body_state.env.get("__views__", {}))
                 vw_[tn_] = (ast.Name(id=bn_, ctx=ast.Load()), ast.Name(id=iname, ctx=ast.Load()), "view")
                 body_state.env["__views__"] = vw_
@@ -1404,6 +1456,9 @@ class Interp(object):
         if isinstance(seq, tuple) and len(seq) == 2 and seq[0] == "zip" and isinstance(seq[1], tuple):
             return tuple(self.elem(x, idx) for x in seq[1])         # item k of zip(a, b, ...) is (a[k], b[k], ...)
         if isinstance(seq, Rat):
+            pushed = _item_of_leading_broadcast(seq, idx)
+            if pushed is not None:
+                return pushed
             return Rat.atom(Fn("getitem", (seq, idx)))
         if isinstance(seq, (list, tuple)):
             return unk("elem", tuple(seq) if len(seq) < 6 else len(seq), idx)
@@ -1429,6 +1484,16 @@ class Interp(object):
             ctx.loop_depth -= 1
         for n in names:
             s.env[n] = unk("while", n, st.lineno)
+        # a loop without break is left exactly when its test is false: the test, read with the values the loop leaves behind
+        if not st.orelse and not any(isinstance(n_, ast.Break) for b_ in st.body for n_ in ast.walk(b_)):
+            try:
+                if not hasattr(self, "while_exit_log"):
+                    self.while_exit_log = []
+                self.while_exit_log.append((ctx.finfo.fq, st.lineno, self.ev(st.test, s.env, ctx)))
+            except AnalysisError:
+                raise
+            except Exception:
+                pass
         return [s]
 
     # ----------------------------------------------------------- expressions
@@ -1641,6 +1706,19 @@ class Interp(object):
             return BoundMethod(o, a)
         return unk("attr", a)
 
+    def known_rank(self, v, ctx):
+        """rank of v when the path has decided `v.ndim == c` (or len(v.shape) == c), else None"""
+        facts = getattr(ctx, "facts_now", None) if ctx is not None else None
+        if not facts or not isinstance(v, Rat):
+            return None
+        car = sorted(set(x.name for x in v.atoms() if isinstance(x, Sym) and "array" in x.flags))
+        nd = Rat.sym("ndim(%s)" % car[0], ("int",)) if len(car) == 1 else Rat.atom(Fn("ndim", (v,)))
+        for c in range(0, 7):
+            for l_, r_ in ((nd, Rat.const(c)), (Rat.const(c), nd)):
+                if facts.get(vkey(mk_cmp("==", l_, r_))) is True:
+                    return c
+        return None
+
     def shape_elem(self, v, i, rank=None):
         carriers = sorted(set(a.name for a in v.atoms() if isinstance(a, Sym) and "array" in a.flags)) \
             if isinstance(v, Rat) else []
@@ -1668,6 +1746,16 @@ class Interp(object):
     def ev_Subscript(self, e, env, ctx):
         o = self.ev(e.value, env, ctx)
         idx = self.ev_index(e.slice, env, ctx)
+        if isinstance(o, Rat) and isinstance(idx, tuple) and not _is_slice(idx) and sum(1 for x in idx if x is Ellipsis) == 1 \
+                and not any(x is None for x in idx):
+            # `...` stands for the full slices of the axes not named: written out when the rank of the operand is known
+            shp_ = static_shape(o)
+            if shp_ is not None and len(shp_) >= len(idx) - 1:
+                k_ = idx.index(Ellipsis)
+                fill = (("slice", Rat.const(0), None, None),) * (len(shp_) - (len(idx) - 1))
+                idx = idx[:k_] + fill + idx[k_ + 1:]
+                if len(idx) == 1:
+                    idx = idx[0]
         if isinstance(o, ShapeOf):
             c = pyconst(idx) if isinstance(idx, Rat) else None
             if isinstance(c, int):
@@ -1680,7 +1768,19 @@ class Interp(object):
                 # the leading k extents: shape[:k]  ->  (shape[0], ..., shape[k-1])  (batch axes first, for a stack)
                 if (lo is None or lo == 0) and isinstance(hi, int) and hi > 0 and stp in (None, 1):
                     return tuple(self.shape_elem(o.v, i) for i in range(0, hi))
+                rk_ = self.known_rank(o.v, ctx)
+                if rk_ is not None and stp in (None, 1) and (lo is None or isinstance(lo, int)) and (hi is None or isinstance(hi, int)):
+                    # the rank is decided on this path: the slice of the shape is a tuple of named extents
+                    rng_ = range(rk_)[slice(lo, hi)]
+                    return tuple(self.shape_elem(o.v, i - rk_, rk_) for i in rng_)
+                if isinstance(lo, int) and lo > 0 and hi is None and stp in (None, 1):
+                    return ShapeTail(o.v, lo)
             return Rat.atom(Fn("shape", (o.v, idx)))
+        if isinstance(o, ShapeTail):
+            c = pyconst(idx) if isinstance(idx, Rat) else None
+            if isinstance(c, int):
+                return self.shape_elem(o.v, c + o.skip if c >= 0 else c)
+            return unk("shape_tail_index", idx)
         if isinstance(o, SeqList) and isinstance(idx, Rat):
             got = self.seq_read(o, idx)
             if got is not None:
@@ -2114,12 +2214,16 @@ class Interp(object):
                 call_args = list(item) if (name == "starmap" and isinstance(item, (tuple, list))) else [item]
                 outs_.append(self.call_repo(args[0].finfo, call_args, {}, ctx))
             return SeqList(outs_, src.prov if isinstance(src, SeqList) else None)
+        if name == "reshape" and isinstance(recv, (list, tuple)) and not _is_slice(recv) and recv and all(isinstance(x_, Rat) for x_ in recv) \
+                and len(args) == 2 and isinstance(args[0], Rat) and args[0].real_const() == len(recv) and not kwargs:
+            # a stack of k arrays reshaped to (k, everything else): the k arrays, each flattened
+            return [Rat.atom(Fn("flatten", (x_,))) for x_ in recv]
         if not isinstance(recv, Rat):
             return unk("method", name)
         x = recv
         ax = args[0] if args else kwargs.get("axis")
         if name in ("sum", "mean", "max", "min", "std", "var", "prod", "argmax", "argmin", "all", "any"):
-            return mk_reduce(name, x, _axis(ax))
+            return mk_reduce(name, x, _axis(ax), getattr(ctx, "loop_depth", None))
         if name == "dot":
             return Rat.atom(Fn("dot", (x, args[0])))
         if name == "diagonal" and not args and not kwargs:
@@ -2137,6 +2241,9 @@ class Interp(object):
         if name == "flatten" or name == "ravel":
             return Rat.atom(Fn("flatten", (x,)))
         if name == "reshape":
+            shp_ = args[0] if len(args) == 1 and isinstance(args[0], (tuple, list)) and not _is_slice(args[0]) else tuple(args)
+            if len(shp_) == 1 and isinstance(shp_[0], Rat) and not kwargs:
+                return Rat.atom(Fn("flatten", (x,)))          # a reshape to one axis is the row-major list of the elements
             return Rat.atom(Fn("reshape", (x,) + tuple(args)))
         if name == "transpose":
             if not args and not kwargs:
@@ -2250,14 +2357,161 @@ def _axis(ax):
     return ax
 
 
+def _first_nested_ifexp(e):
+    """the first conditional expression inside `e` (evaluation order) that is evaluated exactly once whenever `e` is: not inside
+    a lambda, a comprehension, a short-circuit operand or another conditional expression's branches"""
+    if isinstance(e, ast.IfExp):
+        return e
+    if isinstance(e, (ast.Lambda, ast.ListComp, ast.SetComp, ast.DictComp, ast.GeneratorExp, ast.BoolOp)):
+        return None
+    for c in ast.iter_child_nodes(e):
+        if isinstance(c, ast.expr):
+            r = _first_nested_ifexp(c)
+            if r is not None:
+                return r
+        elif isinstance(c, ast.keyword):
+            r = _first_nested_ifexp(c.value)
+            if r is not None:
+                return r
+    return None
+
+
+def _replace_node(e, target, repl):
+    """copy of expression `e` with the node `target` (by identity) replaced by `repl`; untouched sub-trees are shared"""
+    if e is target:
+        return repl
+    if not isinstance(e, ast.AST):
+        return e
+    import copy as _copy
+    changed = False
+    new_fields = {}
+    for name, val in ast.iter_fields(e):
+        if isinstance(val, list):
+            nl = [_replace_node(x, target, repl) for x in val]
+            if any(a is not b for a, b in zip(nl, val)):
+                changed = True
+            new_fields[name] = nl
+        elif isinstance(val, ast.AST):
+            nv = _replace_node(val, target, repl)
+            if nv is not val:
+                changed = True
+            new_fields[name] = nv
+        else:
+            new_fields[name] = val
+    if not changed:
+        return e
+    c = _copy.copy(e)
+    for name, val in new_fields.items():
+        setattr(c, name, val)
+    return c
+
+
 def _itkey(it):
     if isinstance(it, RangeVal):
         return (it.lo, it.hi, it.step)
     if isinstance(it, tuple) and it and it[0] == "enumerate":
         return ("enumerate", _itkey(it[1])) + tuple(it[2:])
     if isinstance(it, tuple) and len(it) == 2 and it[0] == "zip" and isinstance(it[1], tuple):
+        # the items are read through getitem(operand, index) in the body; the key only names the index domain.  When every
+        # operand has a statically known, constant number of items the domain is that count, whatever arrays supply the items
+        ns = [leading_length(x) for x in it[1]]
+        if ns and all(n is not None for n in ns) and len(set(ns)) == 1:
+            return (Rat.const(0), Rat.const(ns[0]), Rat.const(1))
         return ("zip", tuple(_itkey(x) for x in it[1]))
     return _vk(it)
+
+
+def _bcast(a, b):
+    """broadcast of two partially known shapes (tuples of int | None): an axis of known length > 1 decides (in a program
+    that does not raise)"""
+    out = []
+    for i in range(1, max(len(a), len(b)) + 1):
+        x = a[-i] if i <= len(a) else 1
+        y = b[-i] if i <= len(b) else 1
+        out.append(x if (x is not None and x > 1) else y if (y is not None and y > 1) else 1 if (x == 1 and y == 1) else None)
+    return tuple(reversed(out))
+
+
+def static_shape(v):
+    """shape of an array-valued normal form as a tuple of int | None (axis of unknown length), or None when even the rank
+    is unknown.  Only constant lengths are reported; this is used to name iteration domains, never as a verdict."""
+    if isinstance(v, (int, float, complex)):
+        return ()
+    if not isinstance(v, Rat):
+        return None
+    shp = ()
+    for a in v.atoms(False):
+        s_ = _atom_shape(a)
+        if s_ is None:
+            return None
+        shp = _bcast(shp, s_)
+    return shp
+
+
+def _const_len(x):
+    c = x.real_const() if isinstance(x, Rat) else x if isinstance(x, int) else None
+    return int(c) if c is not None and c == int(c) and c >= 0 else None
+
+
+def _atom_shape(a):
+    if isinstance(a, PowA):
+        return static_shape(a.base)
+    if isinstance(a, Sym):
+        return () if any(fl in a.flags for fl in ("scalar", "int", "size", "loopvar")) else None
+    if not isinstance(a, Fn):
+        return None
+    if a.name in ("shape", "len", "size"):
+        return ()
+    if a.name == "draw" and len(a.args) >= 5:
+        sz = a.args[4]
+        if isinstance(sz, tuple) and not (sz and sz[0] == "slice"):
+            return tuple(_const_len(x) for x in sz)
+        if sz is None:
+            return ()
+        return (_const_len(sz),) if isinstance(sz, Rat) else None
+    if a.name == "arange" and len(a.args) == 3 and all(isinstance(x, Rat) for x in a.args):
+        lo, hi, st = (x.real_const() for x in a.args)
+        if None not in (lo, hi, st) and st > 0:
+            import math
+            return (max(0, int(math.ceil((hi - lo) / st))),)
+        return (None,)
+    if a.name == "grid" and len(a.args) == 2 and a.args[1] in (0, 1):
+        vs = static_shape(a.args[0])
+        if vs is None or len(vs) > 1:
+            return None
+        n = vs[0] if vs else 1
+        return (n, None) if a.args[1] == 0 else (None, n)
+    if a.name == "reshape" and len(a.args) >= 2:
+        shp = a.args[1] if len(a.args) == 2 and isinstance(a.args[1], tuple) else tuple(a.args[1:])
+        out = tuple(_const_len(x) for x in shp)
+        return out
+    if a.name == "flatten" and len(a.args) == 1:
+        vs = static_shape(a.args[0])
+        if vs is None or any(x is None for x in vs):
+            return (None,)
+        n = 1
+        for x in vs:
+            n *= x
+        return (n,)
+    if a.name == "setitem" and len(a.args) == 3:
+        return static_shape(a.args[0])
+    if a.name in ("sort", "cumsum", "clip", "astype", "copy") and a.args and isinstance(a.args[0], Rat) and \
+            not any(isinstance(x, tuple) and x and x[0] == "kw:axis" and x[1] is None for x in a.args[1:]):
+        return static_shape(a.args[0])
+    if a.name in _ELEMENTWISE_FNS and all(isinstance(x, Rat) for x in a.args):
+        shp = ()
+        for x in a.args:
+            s_ = static_shape(x)
+            if s_ is None:
+                return None
+            shp = _bcast(shp, s_)
+        return shp
+    return None
+
+
+def leading_length(v):
+    s_ = static_shape(v)
+    return s_[0] if s_ else None
 
 
 STR_METHODS = {"strip", "lstrip", "rstrip", "upper", "lower", "title", "capitalize", "replace", "casefold", "swapcase"}
@@ -2292,6 +2546,51 @@ def _split_block_store(idx, rhs):
     sl = lambda lo, hi: ("slice", lo, hi, None)
     return [((sl(r0, r0 + hr), sl(c0, c0 + hc)), A * f), ((sl(r0 + hr, r1), sl(c0, c0 + hc)), C * f),
             ((sl(r0, r0 + hr), sl(c0 + hc, c1)), B * f), ((sl(r0 + hr, r1), sl(c0 + hc, c1)), D * f)]
+
+
+_ELEMENTWISE_FNS = frozenset({"exp", "sqrt", "cos", "sin", "abs", "conj", "real", "imag", "log", "pow", "exp10", "log10", "tan"})
+
+
+def _item_of_leading_broadcast(v, idx):
+    """Item `idx` (along the leading axis) of an element-wise expression whose only operands of full rank R are
+    v_j.reshape(n, 1, ..., 1): every other operand has a lower rank, so broadcasting repeats it in each item, and the item
+    is the same expression with v_j.reshape(n, 1, ..., 1) replaced by the scalar v_j.ravel()[idx].  None when the
+    expression is not of that form (the caller keeps the opaque item)."""
+    found = {"R": None, "other": 0, "bad": False}
+
+    def f(a):
+        if found["bad"]:
+            return Rat.atom(a)
+        if isinstance(a, Sym):
+            if not any(fl in a.flags for fl in ("scalar", "int", "size", "loopvar")):
+                found["bad"] = True
+            return Rat.atom(a)
+        if isinstance(a, PowA):
+            return None
+        if isinstance(a, Fn):
+            if a.name == "reshape" and len(a.args) >= 2 and isinstance(a.args[0], Rat):
+                shp = a.args[1] if len(a.args) == 2 and isinstance(a.args[1], tuple) else tuple(a.args[1:])
+                if len(shp) >= 2 and all(isinstance(x, Rat) for x in shp) and all(x.real_const() == 1 for x in shp[1:]) \
+                        and found["R"] in (None, len(shp)):
+                    found["R"] = len(shp)
+                    return Rat.atom(Fn("getitem", (Rat.atom(Fn("flatten", (a.args[0],))), idx)))
+                found["bad"] = True
+                return Rat.atom(a)
+            if a.name == "grid":
+                found["other"] = max(found["other"], 2)
+                return Rat.atom(a)
+            if a.name in ("shape", "len", "size"):
+                return Rat.atom(a)
+            if a.name in _ELEMENTWISE_FNS and all(isinstance(x, Rat) for x in a.args):
+                return None
+        found["bad"] = True
+        return Rat.atom(a)
+    if not any(isinstance(a, Fn) and a.name == "reshape" for a in v.atoms(True)):
+        return None
+    out = v.subst(f)
+    if found["bad"] or found["R"] is None or found["other"] >= found["R"]:
+        return None
+    return out
 
 
 def _flat_index_grid(l, r, axis):
@@ -2471,6 +2770,11 @@ def _stack(I, a, k, e, env, ctx):
             return a[0]
         if isinstance(a[0], (list, tuple)):
             return Rat.atom(Fn("array", (tuple(a[0]),)))
+    axc = ax.real_const() if isinstance(ax, Rat) else None
+    if a and axc in (1, -1) and set(k) <= {"axis"} and isinstance(a[0], (list, tuple)) and a[0] and \
+            all(isinstance(x, Rat) and (x.is_const() or _all_1d(x)) for x in a[0]) and any(_all_1d(x) for x in a[0] if not x.is_const()):
+        # vectors stacked along a new last axis are the columns of a table (a constant stands for numpy.full(n, c))
+        return Rat.atom(Fn("column_stack", (tuple(a[0]),)))
     return NotImplemented
 
 
@@ -2613,23 +2917,82 @@ def _reduce(I, a, k, e, env, ctx):
     if isinstance(x, (tuple, list)) and nm in ("max", "min") and all(isinstance(t, Rat) for t in x):
         return Rat.atom(Fn("maximum" if nm == "max" else "minimum", tuple(x)))
     if isinstance(x, Rat):
-        return mk_reduce(nm, x, _axis(ax))
+        return mk_reduce(nm, x, _axis(ax), getattr(ctx, "loop_depth", None))
     return NotImplemented
 
 
-def mk_reduce(nm, x, ax):
+def _sum_over_leading_axes(x, m, depth):
+    """sum over the m leading axes of an element-wise expression whose only operands of full rank are v[:, ..., :, None, ..., None]
+    (m full slices, then r new axes) with v of constant extents (n1, ..., nm), every other operand having rank <= r: that is
+    sum_{i1 < n1} ... sum_{im < nm} of the expression with v replaced by the scalar v[i1, ..., im] - the nest of loops
+    `for i1 in range(n1): ... acc += ...` (same normal form).  None when the expression is not of that form."""
+    st = {"r": None, "dims": [None] * m, "bad": False, "other": 0, "n": 0}
+    ivars = [Rat.sym("B@%d" % (depth + 1 + k_), ("int", "loopvar")) for k_ in range(m)]
+
+    def f(a):
+        if st["bad"]:
+            return Rat.atom(a)
+        if isinstance(a, Sym):
+            if any(fl in a.flags for fl in ("array", "field", "attr")):
+                st["bad"] = True
+            return Rat.atom(a)
+        if isinstance(a, PowA):
+            return None
+        if isinstance(a, Fn):
+            if a.name == "getitem" and isinstance(a.args[0], Rat) and isinstance(a.args[1], tuple) and not _is_slice(a.args[1]) and \
+                    len(a.args[1]) > m and all(_is_full_slice(q) for q in a.args[1][:m]) and all(q is None for q in a.args[1][m:]):
+                r_ = len(a.args[1]) - m
+                shp = static_shape(a.args[0])
+                if st["r"] not in (None, r_) or shp is None or len(shp) != m:
+                    st["bad"] = True
+                    return Rat.atom(a)
+                st["r"] = r_
+                st["n"] += 1
+                for k_, d_ in enumerate(shp):
+                    if d_ is not None and d_ > 1:
+                        if st["dims"][k_] not in (None, d_):
+                            st["bad"] = True
+                        st["dims"][k_] = d_
+                return Rat.atom(Fn("getitem", (a.args[0], tuple(ivars) if m > 1 else ivars[0])))
+            if a.name == "grid":
+                st["other"] = max(st["other"], 2)
+                return Rat.atom(a)
+            if a.name in ("shape", "len", "size"):
+                return Rat.atom(a)
+            if a.name in _ELEMENTWISE_FNS and all(isinstance(q, Rat) for q in a.args):
+                return None
+        st["bad"] = True
+        return Rat.atom(a)
+    body = x.subst(f)
+    if st["bad"] or not st["n"] or st["r"] is None or st["other"] > st["r"] or any(d_ is None for d_ in st["dims"]):
+        return None
+    out = body
+    for k_ in reversed(range(m)):
+        out = Rat.atom(Fn("loopsum", (out, "B@%d" % (depth + 1 + k_), (Rat.const(0), Rat.const(st["dims"][k_]), Rat.const(1)))))
+    return out
+
+
+def mk_reduce(nm, x, ax, depth=None):
     """reduction atom; a reduction along axis k >= 1 of a stacked comprehension reduces each item along axis k - 1:
     array([f(c) for c in rng]).sum(1) is array([f(c).sum(0) for c in rng])"""
     la = x.single_atom() if isinstance(x, Rat) else None
+    if isinstance(ax, tuple) and all(isinstance(q, Rat) and q.real_const() is not None and q.real_const() == int(q.real_const()) for q in ax):
+        ax = tuple(int(q.real_const()) for q in ax)
+    if nm == "sum" and depth is not None and isinstance(x, Rat) and not isinstance(ax, bool) and \
+            (ax == 0 or (isinstance(ax, tuple) and ax and ax == tuple(range(len(ax))))):
+        got = _sum_over_leading_axes(x, 1 if ax == 0 else len(ax), depth)
+        if got is not None:
+            return got
     if isinstance(la, Fn) and la.name == "listcomp" and isinstance(ax, int) and not isinstance(ax, bool) and ax >= 1 and isinstance(la.args[0], Rat) \
             and nm in ("sum", "mean", "max", "min", "std", "var", "prod"):
         return Rat.atom(Fn("listcomp", (Rat.atom(Fn(nm, (la.args[0], ax - 1))),) + tuple(la.args[1:])))
     return Rat.atom(Fn(nm, (x, ax)))
 
 
-@ext("numpy.maximum", "numpy.minimum")
+@ext("numpy.maximum", "numpy.minimum", "numpy.fmax", "numpy.fmin")
 def _maximum(I, a, k, e, env, ctx):
     nm = norm_text(e.func).split(".")[-1]
+    nm = {"fmax": "maximum", "fmin": "minimum"}.get(nm, nm)      # they differ only in how a nan operand is treated
     if len(a) == 2 and isinstance(a[0], Rat):
         b = a[1]
         if not isinstance(b, Rat):
@@ -2933,6 +3296,14 @@ def mk_getitem(o, idx):
     if isinstance(idx, tuple) and len(idx) == 0:
         return o            # x[()] is x (the scalar of a 0-d array, the array itself otherwise)
     a = o.single_atom() if isinstance(o, Rat) else None
+    if isinstance(a, Fn) and a.name == "array" and len(a.args) == 1 and isinstance(a.args[0], tuple) and isinstance(idx, Rat) and \
+            isinstance(pyconst(idx), int) and -len(a.args[0]) <= pyconst(idx) < len(a.args[0]) and isinstance(a.args[0][pyconst(idx)], Rat):
+        return a.args[0][pyconst(idx)]          # item k of a stack written out item by item
+    if a is None and isinstance(o, Rat) and isinstance(idx, Rat) and o.den_is_one() and len(o.num) == 1:
+        # (c * x)[i] is c * x[i] for a numeric constant c
+        (mono, coef), = o.num.items()
+        if len(mono) == 1 and mono[0][1] == 1 and isinstance(mono[0][0], Fn) and mono[0][0].name == "concat":
+            return Rat.const(coef) * mk_getitem(Rat.atom(mono[0][0]), idx)
     if isinstance(a, Fn) and a.name == "concat" and isinstance(idx, Rat) and len(a.args) == 2 and a.args[1] in (0, None) and \
             isinstance(a.args[0], tuple) and len(a.args[0]) == 2:
         # table of prefix sums: concatenate(([0], cumsum(v)))[i] is v[:i].sum()
@@ -2943,7 +3314,18 @@ def mk_getitem(o, idx):
         ca = cs.single_atom() if isinstance(cs, Rat) else None
         if isinstance(z0, Rat) and z0.is_zero() and isinstance(ca, Fn) and ca.name == "cumsum" and len(ca.args) >= 1 and isinstance(ca.args[0], Rat) \
                 and all(x is None for x in ca.args[1:]):
-            return Rat.atom(Fn("sum", (Rat.atom(Fn("getitem", (ca.args[0], ("slice", Rat.const(0), idx, None)))), None)))
+            # ... and the entry c places further on adds the next c items: table[i + c] = v[:i].sum() + v[i] + ... + v[i + c - 1]
+            extra = Rat.const(0)
+            ts_ = idx.terms()
+            if ts_ is not None and len(ts_) > 1:
+                c0 = complex(sum(c_ for c_, m_ in ts_ if not m_))
+                c0 = c0.real if c0.imag == 0 else None
+                if c0 is not None and c0 == int(c0) and 1 <= c0 <= 4:
+                    base = idx - Rat.const(c0)
+                    for k_ in range(int(c0)):
+                        extra = extra + Rat.atom(Fn("getitem", (ca.args[0], base + Rat.const(k_))))
+                    idx = base
+            return Rat.atom(Fn("sum", (Rat.atom(Fn("getitem", (ca.args[0], ("slice", Rat.const(0), idx, None)))), None))) + extra
     if isinstance(a, Fn) and a.name == "getitem" and isinstance(a.args[0], Rat):
         i1 = a.args[1]
         i1 = (i1,) if _is_slice(i1) else i1
@@ -3157,6 +3539,8 @@ def _append(I, a, k, e, env, ctx):
      "numpy.bitwise_or", "numpy.interp", "numpy.fill_diagonal", "numpy.outer", "numpy.trace")
 def _named(I, a, k, e, env, ctx):
     nm = norm_text(e.func).split(".")[-1]
+    if nm == "sort" and isinstance(k.get("axis"), Rat) and k["axis"].real_const() == -1:
+        k = {kk: v for kk, v in k.items() if kk != "axis"}          # the default
     r = Rat.atom(Fn(nm, tuple(_vk(x) for x in a) + tuple(("kw:" + kk, _vk2(v)) for kk, v in sorted(k.items()))))
     if nm == "fill_diagonal" and e.args and isinstance(e.args[0], (ast.Name, ast.Attribute)):
         # in-place: a := diag(v) when a was a zero matrix
@@ -3185,17 +3569,32 @@ def _fft_fn(name):
                     kw["s"] = a[1]
                     if len(a) > 2:
                         kw["axes"] = a[2]
+            nm_ = name
+            ax_ = kw.get("axes")
+            if nm_.endswith("fftn") and isinstance(ax_, (tuple, list)) and not _is_slice(ax_) and len(ax_) == 2 and \
+                    all(isinstance(q, Rat) and q.real_const() is not None for q in ax_):
+                nm_ = nm_[:-1] + "2"        # the n-dimensional transform over two named axes is the two-dimensional one over them
             extra = tuple(("kw:" + kk, _axis(v) if kk in ("axes", "axis") else _vk(v)) for kk, v in sorted(kw.items()))
-            return Rat.atom(Fn(name, (x,) + extra))
+            return Rat.atom(Fn(nm_, (x,) + extra))
         return NotImplemented
     return h
 
 
 for _n in ("fft", "ifft", "fft2", "ifft2", "rfft", "irfft", "rfft2", "irfft2", "fftshift", "ifftshift",
-           "fftn", "ifftn"):
+           "fftn", "ifftn", "rfftn", "irfftn"):
     EXT_CALLS["numpy.fft." + _n] = _fft_fn(_n)
     EXT_CALLS["scipy.fft." + _n] = _fft_fn(_n)
     EXT_CALLS["scipy.fftpack." + _n] = _fft_fn(_n)
+
+
+@ext("numpy.repeat")
+def _repeat(I, a, k, e, env, ctx):
+    x = a[0] if a else k.get("a")
+    reps = a[1] if len(a) > 1 else k.get("repeats")
+    ax = a[2] if len(a) > 2 else k.get("axis")
+    if isinstance(x, Rat) and isinstance(reps, Rat) and set(k) <= {"a", "repeats", "axis"}:
+        return Rat.atom(Fn("repeat", (x, reps, _axis(ax))))
+    return NotImplemented
 
 
 @ext("numpy.fft.fftfreq")
@@ -3304,6 +3703,13 @@ def _rng(I, a, k, e, env, ctx):
 
 def draw_atom(I, recv, name, loc, scale, size, ctx):
     k = recv.key()
+    if isinstance(size, (tuple, list)) and not _is_slice(size) and len(size) >= 3 and all(isinstance(q, Rat) for q in size) and \
+            isinstance(pyconst(size[0]), int) and 2 <= pyconst(size[0]) <= 4 and loc is not None and scale is not None and \
+            not maybe_array(loc) and not maybe_array(scale):
+        # a Generator fills its output sequentially (row-major) and keeps nothing between calls: a stack of n planes drawn at
+        # once is the n planes drawn one after the other
+        planes = [draw_atom(I, recv, name, loc, scale, tuple(size[1:]), ctx) for _ in range(pyconst(size[0]))]
+        return Rat.atom(Fn("array", (tuple(planes),)))
     I.draw_counts[k] = I.draw_counts.get(k, 0) + 1
     # identity of a draw: generator instance, ordinal on that generator (per loop level), distribution
     return Rat.atom(Fn("draw", (recv, name, _vk(loc), _vk(scale), _vk(size), I.draw_counts[k], ctx.loop_depth)))
